@@ -74,6 +74,14 @@ func init() {
 			RealStub: realStubL1,
 		},
 		PropertyPlan{
+			ID: "C13", Level: "exploration",
+			Families: []FamilyPlan{{Name: "c13", Quick: 400, Thorough: 16000, Chunk: 20}, {Name: "c13init", Quick: 48, Thorough: 1500, Chunk: 3}},
+			Rule:     "c13: 1-2 hwmon fans started by the real controller with stored curve data generated arbitrarily (sparse, plateaus, non-monotone, fractional, all-zero, single point, empty) x all combinations of configured min/start/max x neverStop; 70% of the runs attach different data to the registered fan once or twice while it runs. c13init: no stored data - the real initialisation sequence measures a fan plant (start threshold, plateau, bumps; quantising drivers) in virtual time and the reference works on what it stored. Oracle through the public getters at every cycle end and after each attach. distinct = scenario hash; non-trivial = limits judged",
+			Probes:   []string{"limits-judged", "re-attach-judged", "measured-by-init-sequence", "degenerate-all-zero", "empty-data"},
+			Assume:   []string{"all-zero data: only range and configured-wins are asserted", "generated RPM values avoid (0,1) where 'non-zero' and 'whole RPM' disagree", "the measured minimum of a neverStop fan without configured minPwm is not asserted (the text defines none)"},
+			RealStub: realStubL1,
+		},
+		PropertyPlan{
 			ID: "C12", Level: "exploration",
 			Families: []FamilyPlan{{Name: "c12", Quick: 240, Thorough: 8000, Chunk: 10}},
 			Rule:     "each run = closed loop with full-range fans (min 0, max 255) and the direct algorithm, where the request equals the curve value; maps from the configuration (sparse, plateaus) or from the real sweep against a quantising driver; every cycle compares the write (or the decision not to write) with the reference nearest-supported-input computation. distinct = scenario hash; non-trivial = at least one write judged",
